@@ -18,6 +18,7 @@ package simapp
 
 import (
 	"bytes"
+	"encoding/json"
 	"crypto/sha256"
 	"encoding/hex"
 	"fmt"
@@ -28,6 +29,11 @@ import (
 
 	abci "github.com/cometbft/cometbft/abci/types"
 	cmtproto "github.com/cometbft/cometbft/proto/tendermint/types"
+	dbm "github.com/cosmos/cosmos-db"
+	"github.com/circlefin/noble-fiattokenfactory/x/blockibc"
+	"github.com/cosmos/cosmos-sdk/baseapp"
+	"github.com/cosmos/ibc-go/v8/modules/apps/transfer"
+	porttypes "github.com/cosmos/ibc-go/v8/modules/core/05-port/types"
 
 	"cosmossdk.io/math"
 	"github.com/cosmos/cosmos-sdk/crypto/hd"
@@ -711,4 +717,245 @@ func loopRun(rep *Report, full bool) (transcript []string, err error) {
 		}()
 	}
 	return lw.Transcript, nil
+}
+
+// ---------------------------------------------------------------------------------------------
+// Restart: the whole application state is exported (ExportAppStateAndValidators, as `export` does on a node), a fresh
+// application is initialised from that genesis with InitChain at the exported height (as a chain restart / upgrade by
+// genesis does) and the first block is executed. The returned world stands on the restarted chain.
+func (lw *LoopWorld) Restart() (*LoopWorld, []byte, error) {
+	exp, err := lw.App.ExportAppStateAndValidators(false, nil, nil)
+	if err != nil {
+		return nil, nil, fmt.Errorf("export: %w", err)
+	}
+	app2, err := NewSimApp(silentLogger, dbm.NewMemDB(), nil, true, sims.EmptyAppOptions{}, baseapp.SetChainID(chainID))
+	if err != nil {
+		return nil, nil, err
+	}
+	if _, err := app2.InitChain(&abci.RequestInitChain{ChainId: chainID, ConsensusParams: sims.DefaultConsensusParams, AppStateBytes: exp.AppState,
+		Time: loopTime(exp.Height - 1), InitialHeight: exp.Height}); err != nil {
+		return nil, exp.AppState, fmt.Errorf("InitChain from the exported genesis: %w", err)
+	}
+	w2 := *lw.World
+	w2.App = app2
+	stack, ok := app2.IBCKeeper.Router.GetRoute("transfer")
+	if !ok {
+		return nil, exp.AppState, fmt.Errorf("no transfer route")
+	}
+	w2.Stack = stack
+	var ref porttypes.IBCModule = transfer.NewIBCModule(app2.TransferKeeper)
+	w2.Ref = blockibc.NewIBCMiddleware(ref, app2.FTFKeeper)
+	w2.UseInstr = nil
+	n := &LoopWorld{World: &w2, Height: exp.Height, privs: lw.privs, seqs: map[string]uint64{}, Relayer: lw.Relayer, AuthOK: lw.AuthOK,
+		Vouchers: lw.Vouchers, noise: lw.noise}
+	for k, v := range lw.seqs {
+		n.seqs[k] = v
+	}
+	if _, err := n.Block(); err != nil {
+		return nil, exp.AppState, err
+	}
+	return n, exp.AppState, nil
+}
+
+// loopRestartCheck (C17 at chain level): at several points of a real block history the WHOLE application state is
+// exported and a fresh chain is initialised from it; the orbiter genesis must re-export byte-identically from the new
+// chain, and the same continuation (transfers to paused and unpaused destinations, accumulating transfers, admin
+// transactions) must produce the same transaction codes, acknowledgements and refunds on the original and on the
+// restarted chain, ending in identical orbiter exports. generations>1: a restarted chain is restarted again.
+func loopRestartCheck(rep *Report, full bool) error {
+	lw, err := NewLoopWorld()
+	if err != nil {
+		return err
+	}
+	auth, _ := sdk.AccAddressFromBech32(lw.Authority)
+	mk := func(o Op) sdk.Msg { m, _ := o.Msg.Build(); return m }
+	menu := lw.loopMenu(false)
+	// continuation: a fixed selection of the menu (every 7th step: all routes, fee shapes, refusals) + the restart-sensitive
+	// things: accumulating transfers on routes that already have totals, probes of paused destinations, a size probe
+	var cont []LoopStep
+	for i, s := range menu {
+		if i%7 == 0 && !s.Timeout {
+			cont = append(cont, s)
+		}
+	}
+	orb := lw.Orb.String()
+	cont = append(cont,
+		LoopStep{Label: "cctp(0) again", Base: denomUSDC, Amount: "2500", Receiver: orb, Memo: Memo(lw.FwdCCTP(0), lw.feeMenu()[1])},
+		LoopStep{Label: "hyp(1) again", Base: denomUSDC, Amount: "2600", Receiver: orb, Memo: Memo(lw.FwdHyp(1), nil)},
+		LoopStep{Label: "hyp(2)", Base: denomUSDC, Amount: "2650", Receiver: orb, Memo: Memo(lw.FwdHyp(2), nil)},
+		LoopStep{Label: "internal again", Base: denomUSDC, Amount: "2700", Receiver: orb, Memo: Memo(lw.FwdInternal(lw.Bob), lw.feeMenu()[2])},
+		LoopStep{Label: "internal uother again", Base: denomOTH, Amount: "2800", Receiver: orb, Memo: Memo(lw.FwdInternal(lw.Bob), nil)},
+		LoopStep{Label: "cctp(2010) (paused in bulk at a later stage)", Base: denomUSDC, Amount: "10", Receiver: orb, Memo: Memo(Fwd{Kind: "cctp", Domain: 2010, MintRecipient: b32(9)}, nil)},
+		LoopStep{Label: "cctp(2049) (paused in bulk at a later stage)", Base: denomUSDC, Amount: "10", Receiver: orb, Memo: Memo(Fwd{Kind: "cctp", Domain: 2049, MintRecipient: b32(9)}, nil)},
+		LoopStep{Label: "passthrough 2B", Base: denomUSDC, Amount: "10", Receiver: orb, Memo: Memo(Fwd{Kind: "cctp", Domain: 0, MintRecipient: b32(9), Passthrough: []byte{1, 2}}, nil)},
+		LoopStep{Label: "passthrough 9B", Base: denomUSDC, Amount: "10", Receiver: orb, Memo: Memo(Fwd{Kind: "cctp", Domain: 0, MintRecipient: b32(9), Passthrough: []byte{1, 2, 3, 4, 5, 6, 7, 8, 9}}, nil)})
+	type stage struct {
+		name string
+		run  func() error
+	}
+	adminTx := func(label string, o Op) error {
+		if !lw.AuthOK {
+			return nil
+		}
+		ob, err := lw.RunAdmin(auth, true, mk(o))
+		if err != nil {
+			return err
+		}
+		if ob.Code != 0 {
+			return fmt.Errorf("admin %s failed: %s", label, ob.Log)
+		}
+		return nil
+	}
+	runSteps := func(from, to int) func() error {
+		return func() error {
+			for _, s := range menu[from:to] {
+				if _, err := lw.RunStep(s); err != nil {
+					return err
+				}
+			}
+			return nil
+		}
+	}
+	stages := []stage{
+		{"fresh chain (default orbiter state)", func() error { return nil }},
+		{"after 40 transfers on all routes", runSteps(0, 40)},
+		{"after pauses and a parameter change by the authority", func() error {
+			for _, st := range []struct {
+				l string
+				o Op
+			}{{"PauseProtocol(CCTP)", lw.OpPauseProtocol("PROTOCOL_CCTP")}, {"PauseCC(HYP,1)", lw.OpPauseCC("PROTOCOL_HYPERLANE", "1")},
+				{"PauseCC(INTERNAL,noble)+unpause", lw.OpPauseCC("PROTOCOL_IBC", "channel-0", "channel-5")},
+				{"PauseAction(SWAP)", lw.OpPauseAction("ACTION_SWAP")}, {"UpdateParams(4)", lw.OpUpdateParams(4)}} {
+				if err := adminTx(st.l, st.o); err != nil {
+					return err
+				}
+			}
+			return runSteps(40, 60)()
+		}},
+		{"collections larger than one query page (150 paused ids, 130 statistics entries) and a stray balance", func() error {
+			for _, e := range []string{"bulk-pause-150", "bulk-stats-130"} {
+				if err := lw.ApplyEnv(lw.Ctx, e); err != nil {
+					return err
+				}
+			}
+			if err := lw.Deposit(lw.Ctx, lw.Orb, denomUSDC, 5); err != nil {
+				return err
+			}
+			_, err := lw.Block()
+			return err
+		}},
+		{"fee action paused, CCTP unpaused", func() error {
+			if err := adminTx("PauseAction(FEE)", lw.OpPauseAction("ACTION_FEE")); err != nil {
+				return err
+			}
+			return adminTx("UnpauseProtocol(CCTP)", lw.OpUnpauseProtocol("PROTOCOL_CCTP"))
+		}},
+	}
+	if !full {
+		stages = stages[:4]
+	}
+	orbGen := func(l *LoopWorld) (string, error) {
+		exp, err := l.App.ExportAppStateAndValidators(false, nil, nil)
+		if err != nil {
+			return "", err
+		}
+		var m map[string]json.RawMessage
+		if err := jsonUnmarshal(exp.AppState, &m); err != nil {
+			return "", err
+		}
+		return string(m["orbiter"]), nil
+	}
+	violate := func(kind, label, what string, gen string) {
+		rep.Violate(Violation{Kind: kind, Group: "chain-restart", Sig: "restart: " + label,
+			Replay: mustJSON(map[string]any{"restart": label, "orbiter_genesis": json.RawMessage(gen)}), What: what + " [chain restart " + label + "]"})
+	}
+	for _, st := range stages {
+		if err := st.run(); err != nil {
+			return fmt.Errorf("restart stage %q: %w", st.name, err)
+		}
+		gens := 1
+		if full {
+			gens = 2
+		}
+		cur := lw
+		for g := 1; g <= gens; g++ {
+			label := fmt.Sprintf("%s, generation %d", st.name, g)
+			before, err := orbGen(cur)
+			if err != nil {
+				return err
+			}
+			next, _, err := cur.Restart()
+			rep.Count("chain_restarts", 1)
+			rep.Count("evaluations", 1)
+			if err != nil {
+				violate("exported-genesis-does-not-initialise-a-chain", label, "the application state exported after this history does not initialise a fresh chain: "+err.Error(), before)
+				break
+			}
+			after, err := orbGen(next)
+			if err != nil {
+				return err
+			}
+			if oa, ob := cur.observables(cur.Ctx), next.observables(next.Ctx); oa != ob {
+				violate("restarted-chain-answers-queries-differently", label, "the module's query answers (pause sets, parameters, every statistics listing and direct lookup) differ between the chain and its restart from exported genesis: "+firstDiff(oa, ob), before)
+			}
+			if before != after {
+				violate("chain-restart-reexport-differs", label, fmt.Sprintf("orbiter genesis re-exported from the restarted chain differs from the exported one (%d vs %d bytes)", len(after), len(before)), before)
+			} else {
+				rep.Outcome("chain-restart-reexport-identical")
+			}
+			cur = next
+		}
+		// behavioural equivalence: the same continuation on the last generation of the restarted chain and on the ORIGINAL
+		// chain (which thereby moves on; the next stage builds on it)
+		run := func(l *LoopWorld) ([]string, string, error) {
+			var out []string
+			for _, s := range cont {
+				o, err := l.RunStep(s)
+				if err != nil {
+					return nil, "", err
+				}
+				out = append(out, fmt.Sprintf("%s: sendable=%v code=%d ack=%s refund=%s mismatch=%d", s.Label, o.Sendable, o.RecvCode, trunc(string(o.Ack), 200), o.Refund, len(o.Mismatch)))
+				rep.Count("evaluations", 1)
+			}
+			g, err := orbGen(l)
+			return out, g + "\n" + l.observables(l.Ctx), err
+		}
+		a, ga, err := run(cur)
+		if err != nil {
+			return fmt.Errorf("continuation on the restarted chain (stage %q): %w", st.name, err)
+		}
+		b, gb, err := run(lw)
+		if err != nil {
+			return fmt.Errorf("continuation on the reference chain (stage %q): %w", st.name, err)
+		}
+		same := len(a) == len(b)
+		for i := range a {
+			if !same || a[i] != b[i] {
+				same = false
+				violate("restarted-chain-behaves-differently", st.name+" / "+cont[i].Label,
+					fmt.Sprintf("the same continuation step gives different results after a restart from exported genesis:\n  restarted: %s\n  reference: %s", a[i], b[i]), "null")
+				break
+			}
+		}
+		if same && ga != gb {
+			violate("restarted-chain-ends-in-different-state", st.name, "after the same continuation the orbiter exports differ between the restarted chain and the reference", ga)
+		}
+		if same && ga == gb {
+			rep.Outcome("chain-restart-continuation-identical")
+		}
+		rep.Count("traces_validated_against_impl", int64(len(a)))
+	}
+	return nil
+}
+
+func firstDiff(a, b string) string {
+	i := 0
+	for i < len(a) && i < len(b) && a[i] == b[i] {
+		i++
+	}
+	lo := i - 80
+	if lo < 0 {
+		lo = 0
+	}
+	return fmt.Sprintf("…%s  VERSUS  …%s", trunc(a[lo:], 260), trunc(b[lo:], 260))
 }
